@@ -109,7 +109,18 @@ fn cmd_run(args: &[String]) -> i32 {
         }
         if let Some(v) = &rep.violation {
             // minimise, then write the replay file
-            let (small, steps) = case::minimise(&case, &v.oracle, &sandbox, min_budget);
+            let start_case = match &rep.pinned {
+                Some(p) => {
+                    let mut j = case.to_json();
+                    j["scenario"] = p.clone();
+                    match Case::from_json(&j) {
+                        Ok(c) if run_case(&c, hash_seed, &sandbox).ok().and_then(|r| r.violation).map(|x| x.oracle == v.oracle).unwrap_or(false) => c,
+                        _ => case.clone(),
+                    }
+                }
+                None => case.clone(),
+            };
+            let (small, steps) = case::minimise(&start_case, &v.oracle, &sandbox, min_budget);
             let rep2 = run_case(&small, hash_seed, &sandbox).unwrap_or_default();
             let (final_case, final_rep) = if rep2.violation.as_ref().map(|x| &x.oracle) == Some(&v.oracle) {
                 (small, rep2)
@@ -224,6 +235,10 @@ fn main() {
     if !simenv::active() {
         eprintln!("harness error: libsimenv.so is not loaded (LD_PRELOAD)");
         std::process::exit(2);
+    }
+    if args[0] == "save-child" {
+        // crash child of engine A: hash keys, clock and fault plan come from the environment
+        std::process::exit(c16::save_child_main(args.get(1).map(|s| s.as_str()).unwrap_or("")));
     }
     exec::install_panic_hook();
     warm_up();
